@@ -46,10 +46,11 @@ func init() {
 			"(mixed) 4-8 calls of all entry points - well-typed paths, texts that break off in the scanner or parser, renderings, masks of absent elements - run one after the other, by goroutines started together, or (3-6 renderings of one form) in lockstep, where every goroutine is held inside its first Write until all of them are there; everything is judged after the goroutines have ended, each call by its own reference; " +
 			"(wire) CLI payload / signature / mask over non-canonical endorsement files, flags at their defaults now and then; " +
 			"(kinds) 1-3 CLI payload / signature runs through cmd.OSIO with the endorsement behind a symbolic link, a FIFO fed by a goroutine, or a link to one, and the destination fresh, a longer file, a link to a longer file or a dangling link; " +
-			"(same-file, samefile.go, after all earlier case numbers) 1-3 steps, each over a fresh endorsement file: ONE 'inspect payload|signature|mask FILE --out DEST' (--out before or after FILE, '--out=DEST' or '--out DEST') whose DEST is FILE itself - the same path, another spelling of it, FILE a symbolic link to DEST or DEST one to FILE (absolute or relative targets), a hard link, two links to one file, the same file through a linked directory - or, as a control, an unrelated file of the same base name; through cmd.OSIO in a private temporary directory or through a POSIX-like in-memory cmd.IO (Create truncates at once, two names may share one file); DEST is read back and judged like every other rendering against the endorsement FILE held when the command was started; or a good rendering, a FAILING run (FILE missing / not an endorsement / a directory, unknown --bytesform, unparsable mask path) and another good rendering, all onto one destination, only the good ones judged. " +
+			"(same-file, samefile.go, after all earlier case numbers) 1-3 steps, each over a fresh endorsement file: ONE 'inspect payload|signature|mask FILE --out DEST' (--out before or after FILE, '--out=DEST' or '--out DEST') whose DEST is FILE itself - the same path, another spelling of it, FILE a symbolic link to DEST or DEST one to FILE (absolute or relative targets), a hard link, two links to one file, the same file through a linked directory - or, as a control, an unrelated file of the same base name; through cmd.OSIO in a private temporary directory or through a POSIX-like in-memory cmd.IO (Create truncates at once, two names may share one file); DEST is read back and judged like every other rendering against the endorsement FILE held when the command was started; or a good rendering, a FAILING run (FILE missing / not an endorsement / a directory, unknown --bytesform, unparsable mask path) and another good rendering, all onto one destination, only the good ones judged; " +
+			"(os-write-fault, osfault.go, after all earlier case numbers) 1-3 steps, each over a fresh endorsement file: the rendering is first made onto a regular file (judged like every other rendering), then the very same call is repeated onto a destination that cmd.OSIO opens by path and that stores nothing (/dev/full, directly or through a symbolic link; probed by the monitor with a one-byte write); callers: the CLI with backend cmd.OSIO, and Inspect{Payload,Signature,Mask} on the writer cmd.OSIO.Create hands out followed by its clean-up function; a call that reports success for a rendering of at least one byte is a violation, a reported error (open or write) is counted. " +
 			"Oracle: the reference walk (pathref.Walk) says present(value)/absent/unwalkable; a parse error is always allowed (counted); after a successful parse the evaluation must return exactly the walked value (every intermediate value too) when present and an error otherwise; no panic, no call that fails to return (200 s CPU backstop), allocation <= 64 MiB + 4 KiB/byte per call; " +
 			"bin output equals the field bytes, hex/base64 output decodes (encoding/hex, RFC 4648 standard alphabet) to exactly the field bytes. " +
-			"non-trivial = a path that parsed and was evaluated (or a rendering that was produced); distinct = (family, root type, step-kind shape with map key kinds, kind of the addressed value, expected status, outcome) and (entry, form, length class) cells; held: (mode, root, number of paths) plus the evaluation cells; os-files: (subcommand, form, length of the exact rendering relative to what the destination held); several: (entry, encoding, number of paths, position of the first empty field, position of the first absent element, outcome) and (path flag style, destination, defaults); fault: (entry, encoding, which write, short, persistent, outcome); mixed: (mode, calls, failing calls) plus evaluation / rendering cells; wire: (subcommand, encoding, operator); kinds: (subcommand, form, input kind, destination kind); same-file: (backend, relation of DEST to FILE, subcommand, form, length class of the field) and (--out spelling, subcommand); after-failed-run: (backend, kind of failure, what the failed run left in the destination - evidence only)",
+			"non-trivial = a path that parsed and was evaluated (or a rendering that was produced); distinct = (family, root type, step-kind shape with map key kinds, kind of the addressed value, expected status, outcome) and (entry, form, length class) cells; held: (mode, root, number of paths) plus the evaluation cells; os-files: (subcommand, form, length of the exact rendering relative to what the destination held); several: (entry, encoding, number of paths, position of the first empty field, position of the first absent element, outcome) and (path flag style, destination, defaults); fault: (entry, encoding, which write, short, persistent, outcome); mixed: (mode, calls, failing calls) plus evaluation / rendering cells; wire: (subcommand, encoding, operator); kinds: (subcommand, form, input kind, destination kind); same-file: (backend, relation of DEST to FILE, subcommand, form, length class of the field) and (--out spelling, subcommand); after-failed-run: (backend, kind of failure, what the failed run left in the destination - evidence only); os-write-fault: (caller, destination, subcommand, form, size class of the rendering relative to 4 KiB / 64 KiB, outcome)",
 		Assumptions: []string{
 			"a parse error is never judged (C19: 'parsing either fails with an error or ...'); floors require that every spelling feature and every map key kind was seen to parse and evaluate to the walked value, so a parser that rejects a whole class makes the run inconclusive instead of passing",
 			"an unset singular message field is not absent (protobuf reflection reads it as the empty message); only missing list indices and map keys are absent",
@@ -64,6 +65,7 @@ func init() {
 			"an endorsement file / golden measurement in a non-canonical encoding IS the message protobuf decodes from it (the monitor decodes the same bytes with google.golang.org/protobuf, a dependency, not the code under test); 'inspect payload' must print the payload bytes as they are in the file, not a re-encoding",
 			"the CLI reads FILE and writes --out through the operating system's notion of a path: a symbolic link or a FIFO in place of the endorsement, and a symbolic link in place of the destination, are followed; FIFOs are fed by a goroutine of the monitor with less than a pipe buffer of data, the monitor never waits on time",
 			"'inspect CMD FILE --out DEST' renders the endorsement FILE holds when the command is started; FILE and DEST are two arguments nothing forbids to name one file (in-place replacement, a link, another spelling), so when such a command reports success DEST must hold the exact rendering (C19: 'the raw renderings ... are the exact field bytes, so external tools can re-verify them'). A command that refuses the combination with an error renders nothing and is not judged (counted; floors require exact renderings for every relation). What a FAILED command leaves in its destination is outside C19 (the unchanged tree empties it whenever the failure comes after the destination was opened): recorded as evidence, never judged; the good runs before and after it are judged like single runs",
+			"the write-fault assumption holds for the writer the shipped binary uses as well: cmd.OSIO.Create returns a writer and a clean-up function without a result, so the error results of the Inspect* call / of the command are the only way a caller learns that the rendering was not stored; when the operating system refuses every write of the destination (the monitor probes this itself before the call) and the exact rendering has at least one byte, a call that reports success is judged (unstored-rendering-reported-as-success); which error is reported, whether it comes from opening or from writing, and renderings of zero bytes are not judged; errors of Close (which the unchanged tree drops) are not provoked; a host without a usable /dev/full makes the run inconclusive (floor), not passing",
 			"CLI paths contain no comma or quote (cobra's --path is a CSV string slice); the CLI is driven in-process through the verif backend hook with in-memory IO",
 		},
 		ShardsQuick: 8, ShardsThor: 16, TimeoutS: 1500, TimeoutThor: 3600, UlimitVKB: 6 << 20, Run: run,
@@ -125,6 +127,10 @@ type checker struct {
 	sameFileExact    map[string]int
 	sameFileNonEmpty int
 	afterFailedExact map[string]int
+	// os-write-fault family (osfault.go)
+	osFaultReported map[string]int
+	osFaultSteps    int
+	osFaultNoted    int
 }
 
 func threadUserCPU() time.Duration {
@@ -741,7 +747,7 @@ func (k *checker) soup(i int, r *rand.Rand, rt rootType) {
 func run(c *core.Ctx) {
 	k := &checker{c: c, okKeyKind: map[string]bool{}, okSpelling: map[string]bool{}, okRoot: map[string]bool{}, renderOK: map[string]bool{}, heldOK: map[string]int{},
 		sevExact: map[string]int{}, sevStyle: map[string]int{}, wireOK: map[string]int{}, faultReported: map[string]int{}, mixedGoodAfterFailed: map[string]int{}, lockstepExact: map[string]int{}, mixedSpecial: map[string]int{}, kindsOK: map[string]int{},
-		sameFileExact: map[string]int{}, afterFailedExact: map[string]int{}}
+		sameFileExact: map[string]int{}, afterFailedExact: map[string]int{}, osFaultReported: map[string]int{}}
 	n := c.N(10000, 300000)
 	for i := 0; i < n; i++ {
 		if !c.Mine(i) {
@@ -815,6 +821,18 @@ func run(c *core.Ctx) {
 			k.sameFile(i, c.Rand(i))
 		}
 	}
+	// The os-write-fault family (osfault.go), again after everything that existed before.
+	base3 := base2 + nSame
+	nOSFault := c.N(160, 2400)
+	for i := base3; i < base3+nOSFault; i++ {
+		if c.Mine(i) {
+			k.osWriteFault(i, c.Rand(i))
+		}
+	}
+	for _, what := range append(append([]string{}, osFaultCallers...), osFaultDests...) {
+		c.Floor("write-failure-of-a-cmd.OSIO-destination-reported/"+what, k.osFaultReported[what] > 0)
+	}
+	c.Floor("write-failure-of-a-cmd.OSIO-destination-reported/rendering-of-at-most-4KiB", k.osFaultReported["fits-4KiB"] > 0)
 	for _, rel := range sameFileRelationsOS {
 		c.Floor("same-file-rendering-exact/os/"+rel, k.sameFileExact["os/"+rel] > 0)
 	}
